@@ -187,85 +187,117 @@ def evaluation(repo: Repo, rep: Report) -> None:
 
 
 def guards_strict(repo: Repo, rep: Report) -> None:
+    """SEG-G: at every place where an update is proposed, the dominating guards entail the bounds that hold after the update.
+    The sites are recognised by the *shape of the proposed value*, not by names:
+      merge  a pair of block indices is recorded (`S.add((a, b))` / `.append`), to be replaced by the union of the two blocks
+      split  ([i], [A, B])                    one block replaced by two
+      move   ([i, j], [[p for p in cur[s] if p != c], cur[d] + [c]])   one cell handed from block s to block d
+    `cur` is the partition parameter of the function the site is in; the block count is len(cur) (or a local equal to it)."""
     rep.rule("SEG-G", "bound guards in candidates() entail the post-update bounds (merge: count-1 >= min, sum <= max; split: count+1 <= max, halves >= min; move: donor-1 >= min, receiver+1 <= max)")
     mod = repo.mod(SEG)
     fn = mod.func("SegmentationBuilder2D.candidates")
     rep.saw(SEG, "SegmentationBuilder2D.candidates")
-    lz = L.Linearizer()
-    sites: List[Tuple[ast.Call, G.Facts]] = []
+    sites: List[Tuple[ast.AST, G.Facts, str]] = []  # (proposed value, facts, partition parameter)
+    G.register_predicates({q: f for q, f in mod.funcs.items() if q.startswith("SegmentationBuilder2D.") or "." not in q})
 
-    def on_expr(n: ast.AST, f: G.Facts) -> None:
-        if isinstance(n, ast.Call) and isinstance(n.func, ast.Attribute) and n.func.attr in ("append", "add") and norm(n.func.value) in ("ret", "adjacent_pairs"):
-            sites.append((n, f))
+    def walk(f: ast.FunctionDef, cur: Optional[str]) -> None:
+        params = [a.arg for a in f.args.args if a.arg != "self"]
+        cur_here = cur if cur in [a.arg for a in f.args.args] or not params else None
+        if cur_here is None and params:
+            cur_here = params[0]
 
-    def on_nested(nfn: ast.FunctionDef, _f: G.Facts) -> None:
-        # a local helper that proposes updates (e.g. one function for the four move directions): its own guards must suffice
-        G.Walker(on_expr=on_expr, on_nested=on_nested).run_function(nfn)
+        def on_expr(n: ast.AST, facts: G.Facts) -> None:
+            if isinstance(n, ast.Call) and isinstance(n.func, ast.Attribute) and n.func.attr in ("append", "add") and len(n.args) == 1:
+                v = n.args[0]
+                if isinstance(v, ast.IfExp) and isinstance(v.body, ast.Tuple) and isinstance(v.orelse, ast.Tuple) and \
+                        sorted(norm(e) for e in v.body.elts) == sorted(norm(e) for e in v.orelse.elts):
+                    v = v.body  # (i, j) if i < j else (j, i): the same pair either way
+                if isinstance(v, ast.Tuple) and len(v.elts) == 2:
+                    sites.append((v, facts, cur_here or "current"))
 
-    G.Walker(on_expr=on_expr, on_nested=on_nested).run_function(fn)
-    if len(sites) < 3:
-        raise AnalysisError(f"candidates(): only {len(sites)} update sites found")
-    nb = L.sym("num_blocks")
+        def on_nested(nfn: ast.FunctionDef, _f: G.Facts) -> None:
+            walk(nfn, cur_here)
+
+        G.Walker(on_expr=on_expr, on_nested=on_nested).run_function(f)
+
+    seen_m = {"candidates"}
+    todo = [fn]
+    walk(fn, None)
+    while todo:
+        c = todo.pop()
+        for n in ast.walk(c):
+            if isinstance(n, ast.Call) and isinstance(n.func, ast.Attribute) and isinstance(n.func.value, ast.Name) and n.func.value.id == "self":
+                q = f"SegmentationBuilder2D.{n.func.attr}"
+                if n.func.attr not in seen_m and mod.has_func(q):
+                    seen_m.add(n.func.attr)
+                    helper = mod.func(q)
+                    rep.saw(SEG, q)
+                    walk(helper, None)
+                    todo.append(helper)
+
     kinds = {"merge": 0, "split": 0, "move": 0}
-    for call, facts in sites:
+
+    def ln(text: str) -> Any:
+        L.SYMINFO[f"len({text})"] = ("len", text)
+        return L.sym(f"len({text})")
+
+    for val, facts, cur in sites:
         pr = G.Prover(facts)
-        txt = norm(call)
-        target = norm(call.func.value)
-        arg = call.args[0]
-        if target == "adjacent_pairs":
-            # pair admitted for merging: sizes must fit, and the count guard must be strict
+        nb = ln(cur)
+        a0, a1 = val.elts
+        names0 = [norm(e) for e in a0.elts] if isinstance(a0, ast.List) else None
+        # ---- merge: a pair of block indices (names or min/max of two names) -------------------------------
+        if names0 is None:
+            ids = []
+            for e in val.elts:
+                ns = sorted({x.id for x in ast.walk(e) if isinstance(x, ast.Name) and x.id not in ("min", "max")})
+                ids.append(ns)
+            flat = sorted({x for ns in ids for x in ns})
+            if len(flat) != 2:
+                continue
             kinds["merge"] += 1
+            i, j = flat
             ok1 = pr.ge0(L.add(L.add(nb, L.sym("self.min_num_blocks"), -1), L.const(-1)))
-            si, sj = L.sym("len(current[i])"), L.sym("len(current[j])")
-            L.SYMINFO["len(current[i])"] = ("len", "current[i]")
-            L.SYMINFO["len(current[j])"] = ("len", "current[j]")
-            ok2 = pr.ge0(L.add(L.sym("self.max_block_size"), L.add(si, sj), -1))
+            ok2 = pr.ge0(L.add(L.sym("self.max_block_size"), L.add(ln(f"{cur}[{i}]"), ln(f"{cur}[{j}]")), -1))
             if ok1 and ok2:
-                rep.ok("SEG-G", f"merge pair `{short(arg)}`: num_blocks - 1 >= min_num_blocks and merged size <= max_block_size follow from the guards")
+                rep.ok("SEG-G", f"merge pair `{short(val)}`: count - 1 >= min_num_blocks and merged size <= max_block_size follow from the guards")
             else:
-                rep.finding("SEG-G", SEG, "SegmentationBuilder2D.candidates", f"merge guard for {txt}",
+                rep.finding("SEG-G", SEG, "SegmentationBuilder2D.candidates", f"merge guard for {short(val)}",
                             "a merge is proposed where the guards do not imply " +
-                            ("num_blocks - 1 >= min_num_blocks" if not ok1 else "len(i) + len(j) <= max_block_size"), call.lineno)
+                            ("block count - 1 >= min_num_blocks" if not ok1 else f"len({cur}[{i}]) + len({cur}[{j}]) <= max_block_size"), val.lineno)
             continue
-        if not (isinstance(arg, ast.Tuple) and len(arg.elts) == 2 and isinstance(arg.elts[0], ast.List)):
+        if not isinstance(a1, ast.List):
             continue
-        excl, app = arg.elts
-        if len(excl.elts) == 1 and isinstance(app, ast.List) and len(app.elts) == 2:
+        # ---- split ---------------------------------------------------------------------------------------
+        if len(a0.elts) == 1 and len(a1.elts) == 2 and not isinstance(a1.elts[0], ast.ListComp):
             kinds["split"] += 1
             ok1 = pr.ge0(L.add(L.add(L.sym("self.max_num_blocks"), nb, -1), L.const(-1)))
-            a, b = (norm(e) for e in app.elts)
-            la, lb = L.sym(f"len({a})"), L.sym(f"len({b})")
-            L.SYMINFO[f"len({a})"] = ("len", a)
-            L.SYMINFO[f"len({b})"] = ("len", b)
-            ok2 = pr.ge0(L.add(la, L.sym("self.min_block_size"), -1)) and pr.ge0(L.add(lb, L.sym("self.min_block_size"), -1))
+            a, b = (norm(e) for e in a1.elts)
+            ok2 = pr.ge0(L.add(ln(a), L.sym("self.min_block_size"), -1)) and pr.ge0(L.add(ln(b), L.sym("self.min_block_size"), -1))
             if ok1 and ok2:
-                rep.ok("SEG-G", "split: num_blocks + 1 <= max_num_blocks and both halves >= min_block_size follow from the guards")
+                rep.ok("SEG-G", "split: count + 1 <= max_num_blocks and both halves >= min_block_size follow from the guards")
             else:
-                rep.finding("SEG-G", SEG, "SegmentationBuilder2D.candidates", f"split guard for {short(call)}",
+                rep.finding("SEG-G", SEG, "SegmentationBuilder2D.candidates", f"split guard for {short(val)}",
                             "a split is proposed where the guards do not imply " +
-                            ("num_blocks + 1 <= max_num_blocks" if not ok1 else "both halves >= min_block_size"), call.lineno)
-        elif len(excl.elts) == 2 and isinstance(app, ast.List) and len(app.elts) == 2 and isinstance(app.elts[0], ast.ListComp):
+                            ("block count + 1 <= max_num_blocks" if not ok1 else "both halves >= min_block_size"), val.lineno)
+        # ---- move ----------------------------------------------------------------------------------------
+        elif len(a0.elts) == 2 and len(a1.elts) == 2 and isinstance(a1.elts[0], ast.ListComp):
             kinds["move"] += 1
-            donor = norm(app.elts[0].generators[0].iter)  # current[i] / current[j]
-            recv = norm(app.elts[1].left) if isinstance(app.elts[1], ast.BinOp) else None
-            moved = norm(app.elts[0].generators[0].ifs[0].comparators[0]) if app.elts[0].generators[0].ifs else None
-            ld = L.sym(f"len({donor})")
-            L.SYMINFO[f"len({donor})"] = ("len", donor)
-            okd = pr.ge0(L.add(L.add(ld, L.sym("self.min_block_size"), -1), L.const(-1)))
-            okr = False
-            if recv:
-                lr = L.sym(f"len({recv})")
-                L.SYMINFO[f"len({recv})"] = ("len", recv)
-                okr = pr.ge0(L.add(L.add(L.sym("self.max_block_size"), lr, -1), L.const(-1)))
+            comp = a1.elts[0]
+            donor = norm(comp.generators[0].iter)
+            moved = norm(comp.generators[0].ifs[0].comparators[0]) if comp.generators[0].ifs and isinstance(comp.generators[0].ifs[0], ast.Compare) else None
+            recv = norm(a1.elts[1].left) if isinstance(a1.elts[1], ast.BinOp) else None
+            okd = pr.ge0(L.add(L.add(ln(donor), L.sym("self.min_block_size"), -1), L.const(-1)))
+            okr = bool(recv) and pr.ge0(L.add(L.add(L.sym("self.max_block_size"), ln(recv or "?"), -1), L.const(-1)))
             conn = facts.knows(f"_is_connected({donor}, {moved})") is True
-            appended = norm(app.elts[1].right.elts[0]) if recv and isinstance(app.elts[1].right, ast.List) and app.elts[1].right.elts else None
+            appended = norm(a1.elts[1].right.elts[0]) if recv and isinstance(a1.elts[1].right, ast.List) and a1.elts[1].right.elts else None
             if okd and okr and conn and appended == moved:
                 rep.ok("SEG-G", f"move of {moved} from {donor} to {recv}: donor-1 >= min, receiver+1 <= max, donor stays connected without exactly that cell")
             else:
                 why = ("donor size - 1 >= min_block_size" if not okd else "receiver size + 1 <= max_block_size" if not okr else
                        f"the connectivity test is about the cell that is removed ({moved})" if not conn else "the cell added to the receiver is the one removed from the donor")
-                rep.finding("SEG-G", SEG, "SegmentationBuilder2D.candidates", f"move guard for {short(call, 70)}",
-                            f"a cell move is proposed where the guards do not imply that {why}", call.lineno)
+                rep.finding("SEG-G", SEG, "SegmentationBuilder2D.candidates", f"move guard for {short(val, 70)}",
+                            f"a cell move is proposed where the guards do not imply that {why}", val.lineno)
     if kinds["merge"] < 1 or kinds["split"] < 1 or kinds["move"] < 1:
         raise AnalysisError(f"candidates(): update kinds found {kinds}")
 
